@@ -1,4 +1,5 @@
 import ServlinVerif.Props.C16
+import ServlinVerif.Props.CodeTables
 open Servlin.C16
 #print axioms C16_new_correct
 #print axioms C16_add
@@ -6,3 +7,6 @@ open Servlin.C16
 #print axioms C16_add_eq_new
 #print axioms C16_format
 #print axioms C16_legacy_add_violates
+#print axioms Servlin.CodeTables.monthLen_matches
+#print axioms Servlin.CodeTables.monthLen_table_complete
+#print axioms Servlin.CodeTables.monthLen_cycle
